@@ -6,9 +6,18 @@ Inductive index_form :=
 | ZeroBased   (* get_findings_for_location(lineno)      -- the enumerate() index (pinned tree 245fc22) *)
 | OneBased.   (* get_findings_for_location(lineno + 1)  -- the line number of the change (fix c5fc52c) *)
 
-(** xml_transformer.py: XMLTransformerPipeline.apply returns None (and writes nothing) when create_diff is empty (fix 927c1e3),
-    or builds the ChangeSet whatever the diff (pinned tree). *)
-Inductive xml_diff_guard := NoDiffGuard | DiffGuard.
+(** regex_transformer.py: RegexTransformerPipeline.apply (inherited by the SAST class). *)
+Inductive regex_isolation :=
+| NoTry              (* read/decode and self._apply(...) called bare: an exception escapes apply() (pinned tree 245fc22) *)
+| TryReadTransform.  (* each in try/except Exception: add_failure(path, reason); return None (fix 49f7472) *)
+
+(** xml_transformer.py: XMLTransformerPipeline.apply
+    - returns None (and writes nothing) when create_diff is empty (fix 927c1e3), or builds the ChangeSet whatever the diff;
+    - re-reads the original as UTF-8 bare (UnicodeDecodeError escapes) or inside try/except: add_failure + None (fix c634845). *)
+Inductive xml_diff_guard :=
+| NoDiffGuard          (* pinned tree: no `if not diff`, bare re-read *)
+| DiffGuard            (* 927c1e3 only *)
+| DiffGuardRereadTry.  (* 927c1e3 + c634845 *)
 
 (** Shape of a fragment the model has exactly one reading of. *)
 Inductive as_written := AsWritten.
